@@ -77,7 +77,11 @@ fn get_node_cover_range_impl(
     let node_range = node.range();
     (node_range.start <= range.start
         && node_range.end >= range.end
-        && (node.is::<Markup>() || node.is::<Expr>() || node.is::<Pattern>()))
+        // A nested markup cannot be formatted alone: the blanks at its edges and the
+        // indentation of its list items depend on the enclosing node. Use that node instead.
+        && (node.is::<Markup>() && node.parent().is_none()
+            || node.is::<Expr>()
+            || node.is::<Pattern>()))
     .then(|| (node.span(), mode))
     // It returns span to avoid problems with borrowing.
 }
